@@ -178,6 +178,22 @@ func c18Messages(kind string, seed uint64, budget int, lg *caseLog) c18Report {
 				mm.Event = ev
 				muts = append(muts, mutant{"event:" + trunc(ev, 20), mm})
 			}
+			// every protocol event name, in every state, with the genuine payload and with a well-formed
+			// payload of that event's own type (a valid message that merely arrives at the wrong time)
+			for _, ev := range allEvents {
+				if ev == g.Event {
+					continue
+				}
+				mm := *g
+				mm.Event = ev
+				muts = append(muts, mutant{"event-name:" + ev, mm})
+				if canon := canonicalPayload(ev, w, g); canon != nil {
+					mc := *g
+					mc.Event = ev
+					mc.Data = canon
+					muts = append(muts, mutant{"event-name+own-payload:" + ev, resign(mc, w)})
+				}
+			}
 			for _, rid := range []string{"", "x", "abcd", strings.Repeat("f", 64), strings.Repeat("r", 3000), " "} {
 				mm := *g
 				mm.DkgRoundID = rid
@@ -240,6 +256,46 @@ func c18Messages(kind string, seed uint64, budget int, lg *caseLog) c18Report {
 					wit["stack"] = trunc(stack, 1800)
 					report("C18/panic-in-ProcessMessage:"+topRepoFrame(stack), fmt.Sprintf("ProcessMessage panicked on %s of a %s: %v", mu.Label, g.Event, pan), wit)
 					continue
+				}
+				// an ACCEPTED mutant may have stored data that only hurts later: the genuine messages that follow in
+				// the reference log are delivered on top of it, and the rounds are listed
+				if err == nil && (strings.HasPrefix(mu.Label, "data:") || strings.HasPrefix(mu.Label, "opener:")) && len(world.DiffMaps(before, after, world.Topic+"_offset")) > 0 {
+					rep.Cases++
+					lg.begin(fmt.Sprintf("%s off=%d node=%s %s then the following genuine messages", kind, g.Offset, nd.Name, mu.Label))
+					var pan3 interface{}
+					var stack3, at string
+					func() {
+						defer func() {
+							if x := recover(); x != nil {
+								pan3 = x
+								stack3 = string(debug.Stack())
+							}
+						}()
+						fed := 0
+						for j := int(g.Offset) + 1; j < len(all) && fed < 10; j++ {
+							fm := all[j]
+							if fm.RecipientAddr != "" && fm.RecipientAddr != nd.Name {
+								continue
+							}
+							fed++
+							at = fmt.Sprintf("genuine message %d (%s)", fm.Offset, fm.Event)
+							_ = nd.Svc.ProcessMessage(fm)
+						}
+						at = "listing the rounds"
+						_, _ = nd.FSM.GetFSMList()
+						if a := apiFor(nd); a != nil {
+							at = "GET /getFSMDump"
+							_, _ = a.FSMDump(g.DkgRoundID)
+							at = "GET /getOperations"
+							_, _ = a.Operations()
+						}
+					}()
+					w.Board.Truncate(len(all))
+					distinct[fmt.Sprintf("%s|accepted-then-continue|%s|%s", kind, g.Event, cls)] = true
+					if pan3 != nil {
+						w3 := map[string]interface{}{"world": kind, "node": nd.Name, "accepted_mutant": mu.Label, "mutant_data": trunc(string(mu.Msg.Data), 400), "panicked_at": at, "stack": trunc(stack3, 1800)}
+						report("C18/panic-after-accepted-mutant:"+topRepoFrame(stack3), fmt.Sprintf("%s of a %s was accepted by %s; afterwards %s panicked: %v", mu.Label, g.Event, nd.Name, at, pan3), w3)
+					}
 				}
 				// two-message histories: a hostile opening proposal that was ACCEPTED registers whatever it
 				// carries (names, keys); the next message naming one of its participants meets that data
@@ -502,4 +558,36 @@ func hostileRangeProposals(g storage.Message, w *world.World) []mutant {
 		}
 	}
 	return out
+}
+
+// canonicalPayload is a well-formed payload of ev's request type, naming the genuine sender as participant.
+func canonicalPayload(ev string, w *world.World, g *storage.Message) []byte {
+	p := 0
+	for _, nd := range w.Nodes {
+		if nd.Name == g.SenderAddr {
+			p = nd.Idx
+		}
+	}
+	t := now()
+	switch ev {
+	case EvConfirm, EvDecline:
+		return mkReq(map[string]interface{}{"ParticipantId": p, "CreatedAt": t})
+	case EvCommitErr, EvDealErr, EvResponseErr, EvMasterKeyErr, EvPartialErr, "signature_reconstruction_failed":
+		return mkReq(map[string]interface{}{"ParticipantId": p, "BatchID": "b", "Error": "machine failed", "CreatedAt": t})
+	case EvCommit:
+		return mkReq(map[string]interface{}{"ParticipantId": p, "Commit": []byte("[]"), "CreatedAt": t})
+	case EvDeal:
+		return mkReq(map[string]interface{}{"ParticipantId": p, "Deal": []byte("deal"), "CreatedAt": t})
+	case EvResponse:
+		return mkReq(map[string]interface{}{"ParticipantId": p, "Response": []byte("[]"), "CreatedAt": t})
+	case EvMasterKey:
+		return mkReq(map[string]interface{}{"ParticipantId": p, "MasterKey": []byte("key"), "CreatedAt": t})
+	case EvSigningStart:
+		return mkReq(map[string]interface{}{"BatchID": "b", "ParticipantId": p, "CreatedAt": t, "SigningTasks": []map[string]interface{}{{"MessageID": "m", "File": "f", "Payload": []byte("x")}}})
+	case EvPartialSign:
+		return mkReq(map[string]interface{}{"BatchID": "b", "ParticipantId": p, "CreatedAt": t, "PartialSigns": []map[string]interface{}{{"MessageID": "m", "Sign": []byte("s")}}})
+	case EvSigRecon:
+		return mkReq([]map[string]interface{}{{"File": "f", "BatchID": "b", "MessageID": "m", "SrcPayload": []byte("x"), "Signature": []byte("s"), "Username": g.SenderAddr, "DKGRoundID": g.DkgRoundID}})
+	}
+	return nil
 }
